@@ -67,7 +67,8 @@ _MODS = ["ipaddress.IPv4Address", "decimal.Decimal", "fractions.Fraction", "uuid
          "datetime.date", "collections.OrderedDict", "re.Pattern"]
 for _i, _m in enumerate(_MODS):
     for _form, _ann in (("pep604", f"{_m} | str"), ("union", f"Union[{_m}, str]"), ("optional", f"Optional[{_m}]"), ("plain", _m),
-                        ("list", f"List[{_m}]"), ("dict", f"Dict[str, {_m}]")):
+                        ("list", f"List[{_m}]"), ("dict", f"Dict[str, {_m}]"),
+                        ("blist", f"list[{_m}]"), ("bdict", f"dict[str, {_m}]"), ("btuple", f"tuple[{_m}, ...]")):
         for _how in ("field_override", "config_strategy", "none"):
             if _how == "none" and _form in ("pep604", "union"):
                 continue  # unions without overrides are specified under C11
